@@ -156,13 +156,12 @@ def fifo_bench(name, with_bypass=False, nwords=4, data_width=8, port_dw=8, pre=2
 
 
 CONFIGS = {
-    "core_4words_dma2_bit0": (dict(core_only=2, bit=0), 26, 40, "qt"),
-    "core_2words_dma2_bit5": (dict(core_only=2, nwords=2, bit=5), 24, 40, "qt"),
-    "nobypass_4words_bit0": (dict(with_bypass=False, bit=0), 0, 30, "t"),
-    "bypass_4words_bit0": (dict(with_bypass=True, bit=0), 0, 30, "t"),
-    "nobypass_4words": (dict(with_bypass=False), 0, 36, "t"),
-    "bypass_4words_bit7": (dict(with_bypass=True, bit=7), 0, 40, "t"),
-    "nobypass_2words_bit3": (dict(with_bypass=False, nwords=2, bit=3), 0, 40, "t"),
+    "core_4words_dma2_bit0": (dict(core_only=2, bit=0), 14, 20, "qt"),
+    "core_2words_dma2_bit5": (dict(core_only=2, nwords=2, bit=5), 14, 20, "qt"),
+    "nobypass_4words_bit0": (dict(with_bypass=False, bit=0), 0, 18, "t"),
+    "bypass_4words_bit0": (dict(with_bypass=True, bit=0), 0, 18, "t"),
+    "bypass_4words_bit7": (dict(with_bypass=True, bit=7), 0, 18, "t"),
+    "nobypass_2words_bit3": (dict(with_bypass=False, nwords=2, bit=3), 0, 18, "t"),
 }
 BENCHES = {n: partial(fifo_bench, n, **c[0]) for n, c in CONFIGS.items()}
 
@@ -176,7 +175,7 @@ def run(ctx):
         if ctx.only and not ctx.only.search(n):
             continue
         if ctx.tier == "quick" and "q" in tiers:
-            ctx.add(n, kq, timeout=1200, cover_required=False, min_K=18, chunk=4)
+            ctx.add(n, kq, timeout=1200, cover_required=False, min_K=13, chunk=1)
         elif ctx.tier == "thorough":
-            ctx.add(n, kt, timeout=3000, cover_required=False, min_K=min(kq or 14, 14), chunk=4)
+            ctx.add(n, kt, timeout=3000, cover_required=False, min_K=min(kq or 12, 12), chunk=1)
     ctx.run()
